@@ -61,3 +61,7 @@
 (define-fun-rec plmvR ((l Lst) (k String)) Lst
   (ite ((_ is LNil) l) LNil
        (ite (isSingK (hd l) k) (plmvR (tl l) k) (LCons (hd l) (plmvR (tl l) k)))))
+;   collectK l k : the values of all entries {k: v} of l, in order ($merge entries of a list)
+(define-fun-rec collectK ((l Lst) (k String)) Lst
+  (ite ((_ is LNil) l) LNil
+       (ite (isSingK (hd l) k) (LCons (select (mc (hd l)) k) (collectK (tl l) k)) (collectK (tl l) k))))
